@@ -195,7 +195,7 @@ def fault_case(name, rng: random.Random, length=4, big=0.12):
         if t[0] in ("put", "abort", "remove") and t[1] not in keys:
             keys.append(t[1])
     gets = [f"get {k}" for k in keys]
-    tail = gets + ["close", "open"] + gets + ["close", "open"] + gets + ["close", "end"]
+    tail = gets + ["obs", "close", "open"] + gets + ["close", "open"] + gets + ["obs", "close", "end"]
     return "\n".join(body + tail) + "\n"
 
 
@@ -213,8 +213,12 @@ def crash_corpus():
 
 def fault_corpus():
     return [
-        "case corpus_f4\ncfg kt=bytes n=100 sync=1\nopen\nput 6b32 5858\nput 6b 5858\nremove 6b32\nget 6b\nget 6b32\nclose\nopen\nget 6b\nget 6b32\nclose\nopen\nget 6b\nclose\nend\n",
-        "case corpus_froll\ncfg kt=bytes n=1 sync=1\nopen\nput 61 01\nput 62 02\nput 61 03\nget 61\nget 62\nclose\nopen\nget 61\nget 62\nclose\nopen\nget 61\nget 62\nclose\nend\n",
+        "case corpus_shared_roll\ncfg kt=bytes n=3 sync=1\nopen\nput 6f 30\nput 61 5858\nput 62 5858\nremove 61\nremove 62\nget 61\nget 62\nobs\nclose\nopen\nget 61\nget 62\nclose\nopen\nget 61\nget 62\nobs\nclose\nend\n",
+        "case corpus_shared_roll2\ncfg kt=bytes n=2 sync=1\nopen\nput 61 5858\nput 62 5858\nput 61 5959\nput 62 5a5a\nget 61\nget 62\nobs\nclose\nopen\nget 61\nget 62\nclose\nopen\nget 61\nget 62\nobs\nclose\nend\n",
+        "case corpus_shared_rm\ncfg kt=bytes n=100 sync=1\nopen\nput 61 5858\nput 62 5858\nremove 61\nremove 62\nget 61\nget 62\nobs\nclose\nopen\nget 61\nget 62\nclose\nopen\nget 61\nget 62\nobs\nclose\nend\n",
+        "case corpus_shared_ow\ncfg kt=bytes n=100 sync=1\nopen\nput 61 5858\nput 62 5858\nput 61 5959\nput 62 5a5a\nget 61\nget 62\nobs\nclose\nopen\nget 61\nget 62\nclose\nopen\nget 61\nget 62\nobs\nclose\nend\n",
+        "case corpus_f4\ncfg kt=bytes n=100 sync=1\nopen\nput 6b32 5858\nput 6b 5858\nremove 6b32\nget 6b\nget 6b32\nobs\nclose\nopen\nget 6b\nget 6b32\nclose\nopen\nget 6b\nclose\nend\n",
+        "case corpus_froll\ncfg kt=bytes n=1 sync=1\nopen\nput 61 01\nput 62 02\nput 61 03\nget 61\nget 62\nobs\nclose\nopen\nget 61\nget 62\nclose\nopen\nget 61\nget 62\nclose\nend\n",
     ]
 
 
